@@ -96,7 +96,15 @@ def make_deferred(init):
             d.callback(init["value"])
         state = ("value", init["value"])
     elif st == "failure":
-        d.errback(EXCS[init["exc"]]("boom"))
+        if init.get("how") == "c_callable":
+            # the callback that raised is not Python code: the failure's traceback has Twisted's own frames only
+            d.addCallback(int)
+            d.callback("not a number")          # int("not a number") -> ValueError
+        elif init.get("how") == "never_raised":
+            from twisted.python.failure import Failure
+            d.errback(Failure(EXCS[init["exc"]]("boom"), EXCS[init["exc"]], None))   # no traceback at all
+        else:
+            d.errback(EXCS[init["exc"]]("boom"))
         state = ("failure", init["exc"])
     elif st == "paused":
         inner = defer.Deferred()
@@ -240,7 +248,9 @@ def x_history(ctx, case):
                   lambda: {"received": received, "expected": expected_received, **detail()})
         final_failure = state[0] == "failure"
         del d, inner
-        if inspected_failure:
+        if inspected_failure or init.get("how") == "c_callable":
+            # (a failure raised under a C callable holds Twisted's frames, hence a reference cycle: collect it now,
+            # so that an unhandled-error report of THIS case is not attributed to a later one)
             gc.collect()
         if inspected_failure and not final_failure:
             ctx.check(not logged, "inspected-failure-not-logged-unhandled", lambda: {"logged": logged, **detail()})
@@ -336,6 +346,8 @@ INITS.append({"state": "value", "value": 0, "callbacks_before": 2})
 for e in EXCS:
     INITS.append({"state": "failure", "exc": e})
 INITS.append({"state": "failure", "exc": "ValueError", "callbacks_before": 3})
+INITS.append({"state": "failure", "exc": "ValueError", "how": "c_callable"})
+INITS.append({"state": "failure", "exc": "KeyError", "how": "never_raised"})
 
 INNER = [["always"], ["never"], ["value", ["Equals", 3]], ["value", ["LessThan", 2]], ["failure_is", "ValueError"],
          ["failure_is", "KeyError"]]
